@@ -894,6 +894,21 @@ class DocutilsRenderer(RendererProtocol):
             node["slug"] = slug
             self._heading_slugs[slug] = (node.line, node["ids"][0], implicit_text)
 
+    @staticmethod
+    def _messages_follow(node: nodes.Element, within: type[nodes.Element]) -> None:
+        """Move the system messages inside the ``within`` elements of ``node`` to after ``node``.
+
+        Sphinx names a labelled rubric, definition list or field list by the text of the
+        rubric, its first term or first field name: warnings raised while
+        rendering these are not part of that text.
+        """
+        index = node.parent.index(node) + 1
+        for element in list(findall(node)(within)):
+            for msg_node in list(findall(element)(nodes.system_message)):
+                msg_node.parent.remove(msg_node)
+                node.parent.insert(index, msg_node)
+                index += 1
+
     def render_heading(self, token: SyntaxTreeNode) -> None:
         """Render a heading, e.g. `# Heading`."""
 
@@ -917,6 +932,7 @@ class DocutilsRenderer(RendererProtocol):
             self.copy_attributes(token, rubric, ("class", "id"))
             with self.current_node_context(rubric, append=True):
                 self.render_children(token)
+            self._messages_follow(rubric, nodes.rubric)
             self.generate_heading_target(token, level, rubric, rubric)
             return
 
@@ -1765,6 +1781,8 @@ class DocutilsRenderer(RendererProtocol):
                         line=token_line(child),
                     )
                     self.current_node += [error_msg]
+        if not make_terms:
+            self._messages_follow(node, nodes.term)
 
     def render_field_list(self, token: SyntaxTreeNode) -> None:
         """Render a field list."""
@@ -1802,6 +1820,7 @@ class DocutilsRenderer(RendererProtocol):
                     child = children.pop(0)
                     with self.current_node_context(field_body):
                         self.render_children(child)
+        self._messages_follow(field_list, nodes.field_name)
 
     def render_restructuredtext(self, token: SyntaxTreeNode) -> None:
         """Render the content of the token as restructuredtext."""
